@@ -635,3 +635,10 @@ def run(ctx):
         from ..fixtures import detectors_alive
         ctx.rule("C12-z", "positive example: the panic scan finds the planted bounds check, unwrap and explicit panic in fixtures/")
         detectors_alive(ctx, "C12-z", {"panic"})
+
+    # λ (and every other quantity drawn from a coordinate) is a function of that coordinate alone: no per-thread / per-process state may
+    # enter (a warm start of the quantile iteration from the previous call's root makes λ depend on the previous point).  Restated from
+    # C17-c / C17-d.
+    from .restate import run_restated
+    run_restated(ctx, [("C17", {"C17-c": "no static mut / thread_local / non-Freeze static in the crate",
+                                "C17-d": "no ambient-state callee reachable from the sampling entries"})])
